@@ -2,7 +2,6 @@
 import json, random
 import vlib, dlvlib, scripts as S
 
-LEVEL = "fault_enumeration"
 hx = S.hx
 CUTS = [("between", None), ("header", 1), ("long-length", 30), ("body", 600), ("between-frames", 350)]
 FAULTS = ["eof", "reset+wbreak", "eof+wbreak"]     # orderly close; reset (reads and writes fail); close, then writes fail too
@@ -83,11 +82,14 @@ def run(chk, replay=None):
                 "frames of a multipart message} x {orderly EOF, connection reset (reads and writes fail), EOF followed by write failure} x {1, 2 other live peers} x {the fault is first met by a recv, by a send}, each followed by recv / send calls and "
                 "traffic from the other peers, on real sockets over in-memory pipes (enumerated exhaustively), plus seeded random variations; judged by TLC: TraceLifecycle (at most one "
                 "error per fault, no send routed to a peer whose end was observed, both halves released by the next quiescent point) and TraceDelivery (other peers unaffected); "
-                "distinct = distinct grid cells; non-trivial = all")
+                "the reaction mechanism is model-checked with its named deviations (PeerLifecycle); distinct = distinct grid cells; non-trivial = all")
     chk.assumptions = ["TLC and CommunityModules are correct", "'observed' = the library's read on that connection returned EOF / an error or its write returned an error (logged by the pipe)",
                        "descriptor counting over real TCP/IPC is done by the C17 check's drivers, not here"]
     thorough = chk.tier == "thorough"
     rng = random.Random(chk.seed)
+    for cfg, must in (("MC_PeerLifecycle_ok", True), ("MC_PeerLifecycle_eof_keeps_entry", False), ("MC_PeerLifecycle_error_stream_requeued", False), ("MC_PeerLifecycle_send_error_keeps_peer", False)):
+        r = vlib.tlc("PeerLifecycle", cfg + ".cfg", chk.wd, timeout=600, coverage=must)
+        (chk.model_must_hold if must else chk.model_must_fail)(r, "PeerLifecycle " + cfg + (": released after observation, at most one error per peer, nothing routed to an observed-dead peer; 2 peers, every fault / recv / send order" if must else " (named deviation of the code, past or open: counterexample exists)"))
     if replay:
         sc = json.load(open(replay))["replay"]["script"]
         fam = [sc]
